@@ -1248,3 +1248,83 @@ pub fn replay_history(doc: &serde_json::Value) {
         Err(p) => println!("snapshot panicked: {}", p),
     }
 }
+
+/// Runs one fixed history (no exploration): model comparison after every
+/// step, then all three close modes with the oracles of `cfg.monitors`.
+pub fn linear_history_checks(cfg: &Config, fr: &Fresh, ops: &[Op]) -> Vec<Violation> {
+    let mut out = Vec::new();
+    let hist: Vec<&Op> = ops.iter().collect();
+    // step-by-step
+    let (mut h, mut m) = match start(cfg, fr) {
+        Ok(x) => x,
+        Err(e) => return vec![vio(cfg, "machinery", None, "start", e, &[])],
+    };
+    for (i, op) in ops.iter().enumerate() {
+        let o = h.apply(op);
+        let e = m.apply(op, o.is_ok());
+        let upto: Vec<&Op> = ops[..=i].iter().collect();
+        match (&o, e) {
+            (Outcome::Panic(p), _) => {
+                out.push(vio(cfg, "no-panic", Some(op), &crate::report::panic_site(p), format!("{} panicked: {}", op.show(), p), &upto));
+                return out;
+            }
+            (Outcome::Err(er), Expect::Ok) => {
+                out.push(vio(cfg, "enabledness", Some(op), "refused-but-must-succeed", format!("{} returned Err({})", op.show(), er), &upto));
+                return out;
+            }
+            (Outcome::Ok, Expect::Err) => {
+                out.push(vio(cfg, "enabledness", Some(op), "accepted-but-must-fail", format!("{} returned Ok", op.show()), &upto));
+                return out;
+            }
+            _ => {}
+        }
+        if h.pkg.is_none() {
+            out.push(vio(cfg, "close", Some(op), "package-lost", format!("{:?}", o), &upto));
+            return out;
+        }
+        if cfg.monitors.model && !m.diverged {
+            match snapshot(h.p()) {
+                Err(p) => {
+                    out.push(vio(cfg, "no-panic", Some(op), "snapshot-panic", p, &upto));
+                    return out;
+                }
+                Ok(s) => {
+                    if let Some(d) = m.expected_snapshot().normalized().diff(&s.normalized()) {
+                        out.push(vio(cfg, "model", Some(op), &diff_class(&d), format!("after {}: model vs package: {}", op.show(), d), &upto));
+                        return out;
+                    }
+                }
+            }
+        }
+    }
+    drop(h);
+    for mode in ["into_inner", "flush-alive", "drop"] {
+        let (mut h, m) = match replay(cfg, fr, &hist) {
+            Ok(x) => x,
+            Err(e) => {
+                out.push(vio(cfg, "machinery", None, "replay-diverged", e, &hist));
+                continue;
+            }
+        };
+        let pre = match snapshot(h.p()) {
+            Ok(s) => s,
+            Err(p) => {
+                out.push(vio(cfg, "no-panic", None, "snapshot-panic", p, &hist));
+                continue;
+            }
+        };
+        if cfg.monitors.invariants && mode == "into_inner" {
+            out.extend(invariant_violations(cfg, &pre, "live", &hist));
+        }
+        let bytes = match mode {
+            "into_inner" => h.close_into_inner(),
+            "drop" => h.close_drop(),
+            _ => h.flush_and_peek(),
+        };
+        match bytes {
+            Err(e) => out.push(vio(cfg, "close", hist.last().cloned(), &format!("{}-failed", mode), e, &hist)),
+            Ok(b) => out.extend(close_checks(cfg, mode, &pre, &b, &m, &hist)),
+        }
+    }
+    out
+}
